@@ -324,6 +324,116 @@ def _symbols(e, cache={}):
     return out
 
 
+def _has_quantifier(e):
+    seen = set()
+    stack = [e]
+    while stack:
+        x = stack.pop()
+        if x.get_id() in seen:
+            continue
+        seen.add(x.get_id())
+        if z3.is_quantifier(x):
+            return True
+        if z3.is_app(x):
+            stack.extend(x.children())
+    return False
+
+
+def strengthen_for_sat(assertions, K=2):
+    """Replace bounded-index universal assumptions  forall i. (lo <= i < hi [and ...]) -> body(i)  by the stronger,
+    quantifier-free  hi <= lo + K  and  body(lo) ... body(lo+K-1)  (each guarded by its own antecedent).  The result
+    IMPLIES the original list, so a model of it (plus whatever else is asserted) is a genuine model of the original:
+    used only to establish `sat`, i.e. that a path is feasible / a counter-model exists - never for `unsat`."""
+    out = []
+    changed = False
+    for a in assertions:
+        b = _strengthen_one(a, K)
+        if b is not None:
+            out.append(b)
+            changed = True
+        else:
+            out.append(a)
+    return out, changed
+
+
+def _strengthen_one(q, K):
+    if not (z3.is_quantifier(q) and q.is_forall() and q.num_vars() == 1 and q.var_sort(0) == z3.IntSort()):
+        return None
+    body = q.body()
+    if not z3.is_implies(body):
+        return None
+    ante = body.arg(0)
+    conj = list(ante.children()) if z3.is_and(ante) else [ante]
+    v = z3.Var(0, z3.IntSort())
+    lo = hi = None
+
+    def novar(t):
+        return not any(z3.is_var(x) for x in _subterms(t))
+
+    for cj in conj:
+        if cj.num_args() != 2:
+            continue
+        l, r = cj.arg(0), cj.arg(1)
+        k = cj.decl().kind()
+        if k == z3.Z3_OP_GE and l.eq(v) and novar(r):
+            lo = r
+        elif k == z3.Z3_OP_LE and r.eq(v) and novar(l):
+            lo = l
+        elif k == z3.Z3_OP_LT and l.eq(v) and novar(r):
+            hi = r
+        elif k == z3.Z3_OP_GT and r.eq(v) and novar(l):
+            hi = l
+        elif k == z3.Z3_OP_LE and l.eq(v) and novar(r):
+            hi = r + 1
+        elif k == z3.Z3_OP_GE and r.eq(v) and novar(l):
+            hi = l + 1
+    if lo is None or hi is None:
+        return None
+    insts = [z3.substitute_vars(body, lo + k) for k in range(K)]
+    return z3.And(hi <= lo + K, *insts)
+
+
+def _subterms(t):
+    seen = set()
+    stack = [t]
+    while stack:
+        x = stack.pop()
+        if x.get_id() in seen:
+            continue
+        seen.add(x.get_id())
+        yield x
+        if z3.is_app(x):
+            stack.extend(x.children())
+        elif z3.is_quantifier(x):
+            stack.append(x.body())
+
+
+def strengthened_retry(vcs, budget_s=8.0):
+    """for VCs both solvers left open: look for a counter-model of a STRENGTHENED path condition (bounded-index
+    universals instantiated for sequences of length <= 2).  `sat` is a genuine counter-model of the original VC."""
+    for vc in vcs:
+        if vc.status != "unknown" or vc.kind == "cover":
+            continue
+        pc2, changed = strengthen_for_sat(vc.pc)
+        if not changed:
+            continue
+        s = z3.Solver()
+        s.set("timeout", int(budget_s * 1000))
+        for a in pc2:
+            s.add(a)
+        s.add(z3.Not(vc.goal))
+        t0 = time.time()
+        r = s.check()
+        vc.secs += time.time() - t0
+        if r == z3.sat:
+            vc.status, vc.solver = "failed", "z3(strengthened)"
+            vc.note = (vc.note + " " if vc.note else "") + "counter-model of the path condition with its bounded-index universals instantiated for lengths <= 2 (implies the original condition)"
+            try:
+                vc.model = model_to_dict(s.model())
+            except Exception:
+                vc.model = {}
+
+
 def slice_vc(vc):
     """assertions of the path condition connected (through shared uninterpreted symbols) to the goal"""
     goal_syms = set(_symbols(vc.goal))
@@ -373,10 +483,25 @@ def sliced_retry(vcs, budget_s=8.0):
             t1 = time.time()
             r2 = s2.check()
             vc.secs += time.time() - t1
+            how = "the dropped assumptions are satisfiable"
+            if r2 == z3.unknown:
+                # the solver cannot build a model of the bounded-index universals among the dropped assumptions: show
+                # satisfiability of a STRONGER set instead (strengthen_for_sat), which is sound for `sat`
+                stronger, changed = strengthen_for_sat(dropped)
+                if changed:
+                    s3 = z3.Solver()
+                    s3.set("timeout", int(budget_s * 1000))
+                    for a in stronger:
+                        s3.add(a)
+                    t2 = time.time()
+                    r2 = s3.check()
+                    vc.secs += time.time() - t2
+                    how = "a strengthening of the dropped assumptions (bounded-index universals instantiated for lengths <= 2) is satisfiable"
             if r2 != z3.sat:
                 vc.note = (vc.note + " " if vc.note else "") + f"slice sat but the {len(dropped)} dropped assumptions were not shown satisfiable ({r2}): undecided"
                 continue
             vc.status, vc.solver = "failed", "z3(sliced)"
+            vc.note = (vc.note + " " if vc.note else "") + how
             vc.note = (vc.note + " " if vc.note else "") + f"counter-model of the cone-of-influence slice ({len(sl)} of {len(vc.pc)} assumptions)"
             try:
                 vc.model = model_to_dict(s.model())
